@@ -71,6 +71,9 @@ def classify(fn, case, exp, got):
             return 'bindings-differ:as-over-value-pattern:subject=%s' % sk
         return 'bindings-differ:subject=%s:top=%s' % (sk, top)
     # same outcome, same bindings: the side-effect log differs
+    if 'as-over-value-pattern' in feats and not raising and not logging_:
+        # the name bound by `<value> as name` reaches a guard (logged) although the guarded case is not selected
+        return 'bindings-differ:as-over-value-pattern:subject=%s' % sk
     if raising:
         return 'side-effect-log-differs:exception-raising-subject-hook'
     if logging_:
@@ -81,8 +84,8 @@ def classify(fn, case, exp, got):
 
 def main(ck):
     tree = cy.Tree('C31')
-    nfun = ck.pick(320, 1200)
-    per_mod = ck.pick(40, 100)
+    nfun = ck.pick(200, 1200)
+    per_mod = ck.pick(25, 100)
     nsub = ck.pick(25, 50)
     rng = ck.rng('gen')
     funcs = []
@@ -174,7 +177,7 @@ def main(ck):
     def run_one(job):
         mname, inf, cases = job
         return diff.run_cases(tree, d, mname, cases, ref=inf['src'], compare={'exc_args': False, 'log': True},
-                              setup=SETUP, tagdir='run_' + mname, timeout=900, nproc=2)
+                              setup=SETUP, tagdir='run_' + mname, timeout=900, nproc=ck.pick(2, 4), max_restarts=2000)
 
     t0 = time.time()
     with ThreadPoolExecutor(8) as ex:
